@@ -174,6 +174,15 @@ func c07Ops() []histOp {
 		decOp("TU:dec(unknown, truncated)", tu, tuMsg[:len(tuMsg)-3], nil), decOp("TU:dec(no unknown onto prior holder)", tu, ref.Encode(tu, plain), tuv))
 	ops = append(ops, encOps("TU", tu, tuv)...)
 
+	// one named Go type declared as enum in one struct and as plain i64 in another (same Go field type)
+	ea := mk(fd(1, D, sc(ref.KEnum)), fd(2, D, universe.ListOf(sc(ref.KEnum))))
+	eb := mk(fd(1, D, &ref.Type{Kind: ref.KI64, Named: true}), fd(2, D, universe.ListOf(&ref.Type{Kind: ref.KI64, Named: true})))
+	eav := &ref.Val{K: ref.KStruct, F: []*ref.Val{ref.Int(ref.KEnum, -2), ref.List(ref.KList, ref.Int(ref.KEnum, 5))}}
+	ebv := &ref.Val{K: ref.KStruct, F: []*ref.Val{ref.Int(ref.KI64, 1<<40), ref.List(ref.KList, ref.Int(ref.KI64, -7))}}
+	ops = append(ops, encOps("EnumAsEnum", ea, eav)[1:3]...)
+	ops = append(ops, encOps("EnumAsI64", eb, ebv)[1:3]...)
+	ops = append(ops, decOp("EnumAsEnum:dec", ea, ref.Encode(ea, eav), nil), decOp("EnumAsI64:dec", eb, ref.Encode(eb, ebv), nil))
+
 	// mutually nested static types: a valid pair and a pair whose A nests an invalid type
 	var valid, invalid *universe.GraphPair
 	for i := range universe.GraphPairs {
